@@ -1210,7 +1210,24 @@ func (fc *fnCtx) flow(from, to *ssa.BasicBlock, st *State, in map[*ssa.BasicBloc
 	}
 	if !fc.inline && !fc.specMode {
 		for _, li := range fc.loops {
-			if li.spec == nil || len(li.spec.Exits) == 0 || !li.blocks[from] || li.blocks[to] {
+			if li.spec == nil || len(li.spec.Exits) == 0 {
+				continue
+			}
+			// the loop is left when control reaches its follow block (the successor of the header
+			// outside the loop) from the header or from a `break` block; blocks that end in `break`
+			// are not part of the natural loop, so the edge is recognised by its target. A loop
+			// without such a follow block (`for { .. }`) is left by any edge out of its body.
+			var follow *ssa.BasicBlock
+			for _, s := range li.header.Succs {
+				if !li.blocks[s] {
+					follow = s
+				}
+			}
+			if follow != nil {
+				if to != follow || !li.header.Dominates(from) {
+					continue
+				}
+			} else if !li.blocks[from] || li.blocks[to] {
 				continue
 			}
 			// leaving loop li (condition false or break): its exit clauses hold here
